@@ -322,6 +322,7 @@ static int in_child(void (*fn)(int, int), int a, int b, const char *outpath)
         if (out == NULL) _exit(2);
         signal(SIGABRT, crash_handler); signal(SIGSEGV, crash_handler);
         signal(SIGFPE, crash_handler);  signal(SIGBUS, crash_handler);
+        signal(SIGALRM, crash_handler); alarm(60);      /* a history that does not end hangs inside the library: recorded as a crash */
         fn(a, b);
         fclose(out);
         _exit(0);
